@@ -49,13 +49,13 @@ class Source:
     def func(self, rel: str, qualname: str) -> ast.FunctionDef:
         node = self.tree(rel)
         for part in qualname.split("."):
-            found = None
-            for ch in node.body:
-                if isinstance(ch, (ast.FunctionDef, ast.ClassDef, ast.AsyncFunctionDef)) and ch.name == part:
-                    found = ch
-            if found is None:
+            # "name@k" picks the k-th definition of that name (property getter @0 / setter @1); default: the last one
+            part, _, idx = part.partition("@")
+            found = [ch for ch in node.body
+                     if isinstance(ch, (ast.FunctionDef, ast.ClassDef, ast.AsyncFunctionDef)) and ch.name == part]
+            if not found or (idx and int(idx) >= len(found)):
                 raise Unsupported(f"{rel}:{qualname} not found")
-            node = found
+            node = found[int(idx)] if idx else found[-1]
         return node
 
 
@@ -86,6 +86,9 @@ def select(fn: ast.AST, sel):
                     hits.append((n.lineno, n.col_offset, n.value))
         elif kind == "augassign" and isinstance(n, ast.AugAssign) and ast.unparse(n.target) == sel[1]:
             hits.append((n.lineno, n.col_offset, n.value))
+        elif kind == "augassign_expr" and isinstance(n, ast.AugAssign) and ast.unparse(n.target) == sel[1]:
+            # `t op= v` read as the expression `t op v` (keeps the operator in the generated definition)
+            hits.append((n.lineno, n.col_offset, ast.copy_location(ast.BinOp(left=n.target, op=n.op, right=n.value), n)))
         elif kind == "return" and isinstance(n, ast.Return) and n.value is not None:
             hits.append((n.lineno, n.col_offset, n.value))
         elif kind == "kwarg" and isinstance(n, ast.keyword) and n.arg == sel[1]:
@@ -104,6 +107,9 @@ def select(fn: ast.AST, sel):
             b = t.slice.lower if kind == "slice_lower" else t.slice.upper
             if b is not None:
                 hits.append((n.lineno, n.col_offset, b))
+        elif kind == "method_base" and isinstance(n, ast.Call) and isinstance(n.func, ast.Attribute) and n.func.attr == sel[1]:
+            # ("method_base", method, k): the object expression of the k-th call `<expr>.method(...)`, e.g. the summand of `.sum(axis=…)`
+            hits.append((n.lineno, n.col_offset, n.func.value))
         elif kind == "iftest" and isinstance(n, (ast.If, ast.IfExp, ast.While)) and (
                 len(sel) == 2 or sel[1] in ast.unparse(n.test)):
             # ("iftest", k) / ("iftest", substring, k): the test of the k-th `if`/`elif`/conditional
@@ -151,7 +157,9 @@ FUNCS = {
 MODE_IDX = {"rat": 0, "real": 1, "float": 2}
 SCALAR = {"rat": "Rat", "real": "ℝ", "float": "Float", "cplx": "ℂ"}
 # mode "cplx" (Gen/<M>C.lean): everything is read over ℂ (real parameters are coerced by the site's params_map), `1.0j` -> Complex.I
-CPLX_FUNCS = {"cos": "Complex.cos", "sin": "Complex.sin", "exp": "Complex.exp", "conjugate": "(starRingEnd ℂ)", "conj": "(starRingEnd ℂ)"}
+CPLX_FUNCS = {"cos": "Complex.cos", "sin": "Complex.sin", "exp": "Complex.exp", "conjugate": "(starRingEnd ℂ)", "conj": "(starRingEnd ℂ)",
+              # numpy angle / abs of a complex number, re-embedded in ℂ (real-valued results stay real by construction)
+              "angle": "(fun z : ℂ => ((Complex.arg z : ℝ) : ℂ))", "abs": "(fun z : ℂ => ((‖z‖ : ℝ) : ℂ))"}
 
 
 def lit(value, mode: str, text: str | None = None) -> str:
@@ -249,6 +257,8 @@ class Tx:
                 return f"({a} * {b})"
             if isinstance(n.op, ast.Div):
                 return f"({a} / {b})"
+            if isinstance(n.op, (ast.BitAnd, ast.BitOr)):  # numpy elementwise and/or on boolean masks
+                return f"({a} {'&&' if isinstance(n.op, ast.BitAnd) else '||'} {b})"
             if isinstance(n.op, ast.FloorDiv):
                 return f"(pyFloorDiv {a} {b})"
             if isinstance(n.op, ast.Mod):
